@@ -21,6 +21,7 @@ def run(tier, seed):
                    alphabet=alpha, k=1, run_kw=rk(m)) for m in ('copy', 'pickle', 'yaml')]
         rp.append(dict(name='C07_paused', progs=C.fam(['P03', 'P13', 'P14']), plans=[[]], alphabet=['pause', 'play', 'save', 'restore'], k=4, run_kw=rk('pickle')))
         rp.append(dict(name='C07_unsuccessful', progs=down, plans=save_plans((1, 2, 3)), alphabet=['save', 'restore'], k=2, run_kw=rk('yaml')))
+        rp.append(dict(name='C07_cancelled_future', progs=C.fam(['P03', 'P13']), plans=[[]], alphabet=['pause', 'cancel', 'save', 'restore'], k=4, run_kw=rk('pickle')))
         for nm, inp in (('empty_inputs', {}), ('no_inputs', None)):
             rp.append(dict(name='C07_' + nm, progs=C.fam(['P02', 'P03']), plans=save_plans((1, 2, 3)), alphabet=['save', 'restore'], k=1,
                            run_kw=dict(rk('pickle'), inputs=inp)))
@@ -35,6 +36,7 @@ def run(tier, seed):
               for m in ('copy', 'pickle', 'yaml')]
         rp.append(dict(name='C07_paused', progs=C.fam(progs), plans=[[]], alphabet=['pause', 'play', 'save', 'restore', 'resume'], k=4, run_kw=rk('yaml')))
         rp.append(dict(name='C07_unsuccessful', progs=down, plans=save_plans((1, 2, 3)), alphabet=['save', 'restore'], k=3, run_kw=rk('yaml')))
+        rp.append(dict(name='C07_cancelled_future', progs=C.fam(['P03', 'P05', 'P13']), plans=[[]], alphabet=['pause', 'play', 'cancel', 'save', 'restore'], k=4, run_kw=rk('yaml')))
         for nm, inp in (('empty_inputs', {}), ('no_inputs', None)):
             for m in ('copy', 'pickle', 'yaml'):
                 rp.append(dict(name='C07_%s_%s' % (nm, m), progs=C.fam(progs), plans=save_plans((1, 2, 3, 4)), alphabet=['save', 'restore'], k=1,
